@@ -301,7 +301,7 @@ Lemma set_terminal_id_inv w : P w -> P (snd (set_terminal_id cfg w)).
 Proof.
   intros H. unfold set_terminal_id. pose proof (get_system_info_inv w H) as K.
   destruct (get_system_info cfg w) as [[si|e] w1]; cbn [snd] in *; [|exact K].
-  destruct (list_eqb _ _); [exact K|]. destruct (digits_value _); [|exact K]. by_consume.
+  destruct (list_eqb _ _); [exact K|]. destruct (digits_value _) as [n|]; [|exact K]. destruct (99999999 <? n); [exact K|]. by_consume.
 Qed.
 
 Lemma end_of_day_inv st w : P w -> P (snd (end_of_day cfg st w)).
